@@ -772,6 +772,8 @@ def run(run):
     slotref(run, vm)
     userattr(run, fx)
     growth(run, vm)
+    from . import c18 as c18_
+    c18_.applyval_exec(run, fx, 'GROWTH')        # SET_FEAT grows the segment's feature words through applyValToFeature: no store behind the block (shared with C18)
     const_(run, vm)
     recursion(run, fx)
     looplimit(run, fx)
